@@ -28,8 +28,12 @@ Report(ln, cs) ==
   LET f == Failed(cs) IN
   IF f = <<>> THEN TRUE ELSE \A i \in 1..Len(f) : PrintT(<<"@V", ln.x, ln.n, f[i].t, f[i].x, f[i].o>>)
 
-TlsBased == tp \in {"tls", "btls", "utls"}
-TcpBased == tp \in {"tcp", "btcp", "tls", "btls", "utls"}
+TlsBased == tp \in {"tls", "btls", "utls", "utlst"}
+TcpBased == tp \in {"tcp", "btcp", "tls", "btls", "utls", "utlst"}
+\* spec/Utls.tla: the leg a utls connection runs over: ux when the server is a utls server in the client's namespace,
+\* tls when only a tls server listens at the address (1 = ux, 2 = tls)
+U == INSTANCE Utls WITH Clients <- {1}, UxReach <- {1}, srv <- "up", uxq <- <<>>, tlsq <- <<>>, leg <- <<"none">>, acc <- <<>>, uxerr <- FALSE
+LegNo(g) == IF g = "ux" THEN 1 ELSE IF g = "tls" THEN 2 ELSE 0
 \* what the remote address does in each scenario (Peer of XcmEst) and the errno the documentation promises for it
 PeerOf(s) == CASE s \in {"normal", "ctlflood", "garbage2"} -> "accept" [] s = "refused" -> "refuse" [] s = "silent" -> "silent"
                [] s = "release" -> "late" [] s = "mute" -> "mute" [] s = "garbage" -> "garbage" [] OTHER -> "none"
@@ -85,6 +89,11 @@ StepQ(ln) ==
         Chk(~(scen \in {"normal", "ctlflood", "garbage2"}) \/ ln.stk = 1 \/ (ln.est = <<1, 1>> /\ ln.acc = 1), "C04.progress", <<1, 1>>, ln.est),
         Chk(~(scen \in {"normal", "ctlflood", "garbage2"}) \/ ln.stk = 1 \/ (ln.rcvd[1] = ln.sent[2] /\ ln.rcvd[2] = ln.sent[1] /\ ln.bado = <<0, 0>>), "C01.order", ln.sent, ln.rcvd),
         Chk(~(scen \in {"normal", "ctlflood", "garbage2"}) \/ ln.stk = 1 \/ ln.cs # 0, "C04.lost_wakeup", "close", ln.cs),
+        \* utls delegates to the leg spec/Utls.tla says (both ends agree)
+        Chk(~(tp = "utls" /\ scen \in {"normal", "ctlflood", "garbage2"} /\ ln.stk = 0 /\ ln.est = <<1, 1>> /\ ln.legs[2] # 0)
+            \/ ln.legs[2] = LegNo(U!ExpectedLeg("up", TRUE)), "C01.utls_leg", LegNo(U!ExpectedLeg("up", TRUE)), ln.legs),
+        Chk(~(tp = "utlst" /\ scen \in {"normal", "ctlflood", "garbage2"} /\ ln.stk = 0 /\ ln.est = <<1, 1>> /\ ln.legs[2] # 0)
+            \/ ln.legs[2] = LegNo(U!ExpectedLeg("tlsonly", TRUE)), "C01.utls_leg", LegNo(U!ExpectedLeg("tlsonly", TRUE)), ln.legs),
         \* failure scenarios: the attempt is reported as failed, never as established
         Chk(~(peer \in {"refuse", "silent", "garbage", "mute"} /\ (peer \notin {"mute", "garbage"} \/ TlsBased)) \/ ln.est[1] = 0, "C06.established", 0, ln.est[1]),
         Chk(~(peer \in {"refuse", "silent"} /\ ln.stk = 0) \/ t1 = prom, "C06.errno", prom, t1),
